@@ -260,7 +260,7 @@ def translate(ctx=None) -> Path:
     t = tables()
     out = ["(* GENERATED by harness/translate/c17_tables.py from /repo/src/_griffe (agents/nodes/runtime.py, enumerations.py,",
            "   agents/inspector.py, agents/visitor.py) -- do not edit *)",
-           "From Coq Require Import List String Bool.", "From Verif Require Import Model.C02_params Model.C17_base.",
+           "From Coq Require Import List String Bool.", "From Verif Require Import Model.C02_kinds Model.C02_params Model.C17_base.",
            "Import ListNotations.", "Open Scope string_scope.", "Open Scope list_scope.", "",
            "(* ObjectNode.kind: ordered rungs, each predicate inlined down to primitive observations *)",
            "Definition kind_ladder : list (bexp * okind) :="]
